@@ -15,22 +15,38 @@ def sh(cmd, cwd=None, timeout=1800):
 patch = os.path.join(mdir, "patch.diff")
 demo = os.path.join(mdir, "demo.rs")
 meta = dict(name=name, properties=pids, ran=[])
-sh("git checkout -- antlr interpreter", wt)
-os.makedirs(os.path.join(wt, "interpreter/tests"), exist_ok=True)
-shutil.copy(demo, os.path.join(wt, "interpreter/tests/demo.rs"))
-rc, out = sh("cargo test --offline -p cel-interpreter --features json --test demo 2>&1 | tail -5", wt)
-meta["demo_passes_without_patch"] = ("test result: ok" in out)
-meta["ran"].append("cargo test -p cel-interpreter --test demo (unpatched): " + ("pass" if meta["demo_passes_without_patch"] else "FAIL"))
-rc, out = sh(f"git apply {patch}", wt)
-assert rc == 0, out
-rc, out = sh("cargo test --offline -p cel-interpreter --features json --test demo 2>&1 | tail -5", wt)
-meta["demo_fails_with_patch"] = ("test result: FAILED" in out or "error" in out.lower())
-meta["ran"].append("cargo test -p cel-interpreter --test demo (patched): " + ("fails as expected" if meta["demo_fails_with_patch"] else "PASSES?"))
-os.remove(os.path.join(wt, "interpreter/tests/demo.rs"))
-rc, out = sh("cargo test --workspace --no-fail-fast --offline 2>&1 | grep -E '^test result|FAILED|panicked' ", wt)
-meta["suite_passes_with_patch"] = ("FAILED" not in out and "test result: ok" in out)
-meta["ran"].append("cargo test --workspace --offline (patched): " + ("all pass" if meta["suite_passes_with_patch"] else "FAIL " + out[-300:]))
-sh("git checkout -- antlr interpreter", wt)
+# SEEDTEST_STAGE=confirm: only the scratch-worktree confirmation (result kept under /tmp/seedmeta);
+# SEEDTEST_STAGE=check: only the run against /repo, reusing that confirmation
+STAGE = os.environ.get("SEEDTEST_STAGE", "both")
+KEEP = f"/tmp/seedmeta/{name}.json"
+if STAGE == "check":
+    meta = json.load(open(KEEP))
+    meta["properties"] = pids
+def confirm():
+  global meta
+  sh("git checkout -- antlr interpreter", wt)
+  os.makedirs(os.path.join(wt, "interpreter/tests"), exist_ok=True)
+  shutil.copy(demo, os.path.join(wt, "interpreter/tests/demo.rs"))
+  rc, out = sh("cargo test --offline -p cel-interpreter --features json --test demo 2>&1 | tail -5", wt)
+  meta["demo_passes_without_patch"] = ("test result: ok" in out)
+  meta["ran"].append("cargo test -p cel-interpreter --test demo (unpatched): " + ("pass" if meta["demo_passes_without_patch"] else "FAIL"))
+  rc, out = sh(f"git apply {patch}", wt)
+  assert rc == 0, out
+  rc, out = sh("cargo test --offline -p cel-interpreter --features json --test demo 2>&1 | tail -5", wt)
+  meta["demo_fails_with_patch"] = ("test result: FAILED" in out or "error" in out.lower())
+  meta["ran"].append("cargo test -p cel-interpreter --test demo (patched): " + ("fails as expected" if meta["demo_fails_with_patch"] else "PASSES?"))
+  os.remove(os.path.join(wt, "interpreter/tests/demo.rs"))
+  rc, out = sh("cargo test --workspace --no-fail-fast --offline 2>&1 | grep -E '^test result|FAILED|panicked' ", wt)
+  meta["suite_passes_with_patch"] = ("FAILED" not in out and "test result: ok" in out)
+  meta["ran"].append("cargo test --workspace --offline (patched): " + ("all pass" if meta["suite_passes_with_patch"] else "FAIL " + out[-300:]))
+  sh("git checkout -- antlr interpreter", wt)
+if STAGE != "check":
+    confirm()
+if STAGE == "confirm":
+    os.makedirs("/tmp/seedmeta", exist_ok=True)
+    json.dump(meta, open(KEEP, "w"), indent=1)
+    print(json.dumps({k: meta[k] for k in ("demo_passes_without_patch", "demo_fails_with_patch", "suite_passes_with_patch")}))
+    sys.exit(0)
 # now against /repo
 rc, out = sh("git -C /repo status --porcelain")
 assert out.strip() == "", "repo dirty: " + out
